@@ -68,6 +68,7 @@ def CErr.name : CErr → String
 
 def CErr.isLimit : CErr → Bool
   | .depthLimit .. | .loopLimit .. | .varLimit .. => true
+  | .geom .exprDepth => true   -- the same error kind, raised inside an expression
   | _ => false
 
 structure Cfg where
